@@ -77,7 +77,9 @@ def video_case(draw, tier="quick", recovery=False):
             "ts0": draw(st.sampled_from([0, 12345, 2**32 - 3000 * 5, 2**32 - 1])),
             "sizes": sizes, "media": draw(media_fates(recovery, total + 10)),
             "feedback": [] if recovery else draw(st.lists(fate(False), max_size=30)),
-            "fill": draw(st.integers(0, 255))}
+            "fill": draw(st.integers(0, 255)),
+            # a third of the cases run over a path whose datagram send suspends (TURN relay)
+            "yield_send": draw(st.sampled_from([False, False, True]))}
 
 
 def frame_bytes(codec: str, index: int, npackets: int, fill: int) -> bytes:
@@ -154,6 +156,11 @@ class Ice:
     async def _send(self, data: bytes) -> None:
         if self.closed or self.peer.closed:
             raise ConnectionError
+        if self.wire.run.case.get("yield_send"):
+            # a relayed path: the send suspends, other coroutines of the endpoint run before the datagram leaves
+            await asyncio.sleep(0)
+            if self.closed or self.peer.closed:
+                raise ConnectionError
         first = data[0]
         if not (127 < first < 192):
             self._deliver(data)
@@ -386,6 +393,8 @@ class Run:
             self.classes.add("loss")
         if case.get("rtx"):
             self.classes.add("rtx")
+        if case.get("yield_send"):
+            self.classes.add("yielding-send")
         seqs = [r["seq"] for r in self.sent]
         if seqs and max(seqs) - min(seqs) > 40000:
             self.classes.add("seq-wrap")
